@@ -5,6 +5,9 @@ package main
 
 import (
 	"go/ast"
+	"go/types"
+
+	"golang.org/x/tools/go/ssa"
 	"bytes"
 	"context"
 	"encoding/json"
@@ -44,7 +47,7 @@ func (r *replayer) binary(dir string) (string, error) {
 	}
 	var names []string
 	pkgName := ""
-	ov := map[string]string{filepath.Join(repoDir, "zzvf", "vf.go"): filepath.Join(verifDir, "harness", "zzvf", "vf.go")}
+	ov := zzvfFiles()
 	for _, h := range r.hfs {
 		if h.Dir != dir {
 			continue
@@ -133,7 +136,7 @@ func runReplayBinary(bin, cwd, harness, file, tier string) (*replayResult, error
 	defer cancel()
 	cmd := exec.CommandContext(ctx, bin, "-test.run", "^TestZZReplay$", "-test.v", "-test.timeout", "30s")
 	cmd.Dir = cwd
-	cmd.Env = append(os.Environ(), "ZZVF_REPLAY="+file, "ZZVF_HARNESS="+harness, "ZZVF_TIER="+tier)
+	cmd.Env = append(os.Environ(), "TMPDIR="+filepath.Dir(bin), "ZZVF_REPLAY="+file, "ZZVF_HARNESS="+harness, "ZZVF_TIER="+tier)
 	var buf bytes.Buffer
 	cmd.Stdout = &buf
 	cmd.Stderr = &buf
@@ -595,11 +598,28 @@ func (r *replayer) stubOverlay(ov map[string]string) error {
 			if i < 0 {
 				return fmt.Errorf("bad stub name %s", st[0])
 			}
-			pkg := r.P.prog.ImportedPackage(st[0][:i])
-			if pkg == nil {
-				return fmt.Errorf("stub: package %s not loaded", st[0][:i])
+			var fn *ssa.Function
+			if strings.HasPrefix(st[0], "(*") {
+				// method: (*pkgpath.Type).name
+				recv := st[0][2 : i-1]
+				k := strings.LastIndex(recv, ".")
+				if k < 0 {
+					return fmt.Errorf("bad stub name %s", st[0])
+				}
+				pkg := r.P.prog.ImportedPackage(recv[:k])
+				if pkg == nil {
+					return fmt.Errorf("stub: package %s not loaded", recv[:k])
+				}
+				if tp := pkg.Type(recv[k+1:]); tp != nil {
+					fn = r.P.prog.LookupMethod(types.NewPointer(tp.Type()), pkg.Pkg, st[0][i+1:])
+				}
+			} else {
+				pkg := r.P.prog.ImportedPackage(st[0][:i])
+				if pkg == nil {
+					return fmt.Errorf("stub: package %s not loaded", st[0][:i])
+				}
+				fn = pkg.Func(st[0][i+1:])
 			}
-			fn := pkg.Func(st[0][i+1:])
 			if fn == nil || fn.Syntax() == nil {
 				return fmt.Errorf("stub: function %s not found", st[0])
 			}
@@ -627,7 +647,13 @@ func (r *replayer) stubOverlay(ov map[string]string) error {
 					}
 					callArgs = strings.Join(names, ", ")
 				}
-				byFile[lo.Filename] = append(byFile[lo.Filename], edit{lo.Offset, lo.Offset + 1, "{ if zzvfstub.Native() { return zzvfstub." + target + "(" + callArgs + ") }; "})
+				ret := "return "
+				if fd.Type.Results == nil || len(fd.Type.Results.List) == 0 {
+					ret = "return; "
+					byFile[lo.Filename] = append(byFile[lo.Filename], edit{lo.Offset, lo.Offset + 1, "{ if zzvfstub.Native() { zzvfstub." + target + "(" + callArgs + "); return }; "})
+				} else {
+					byFile[lo.Filename] = append(byFile[lo.Filename], edit{lo.Offset, lo.Offset + 1, "{ if zzvfstub.Native() { " + ret + "zzvfstub." + target + "(" + callArgs + ") }; "})
+				}
 			}
 		}
 	}
